@@ -93,6 +93,7 @@ def gen_case(rng: random.Random, cfg: str, kind: str) -> dict:
         # the reader's first receive() is cancelled (timeout) while it waits for data that
         # the writer has not sent yet; everything afterwards must be as if it never happened
         "cancelled_receive": rng.random() < 0.35,
+        "reverse_late": rng.random() < 0.5,
     }  # fmt: skip
 
 
@@ -244,7 +245,18 @@ def execute(case: dict) -> dict:
         async def reverse_flow() -> None:
             pos = 0
             try:
-                for n in case["reverse"]:
+                for k, n in enumerate(case["reverse"]):
+                    if (case.get("reverse_late") and case["eof"] == "send_eof"
+                            and k == len(case["reverse"]) - 1):  # fmt: skip
+                        # half-closed connection: the last message of the reverse flow is
+                        # sent only after the peer's send_eof() has been seen, so that
+                        # send_eof() happens while the peer's other task sits in receive()
+                        t0 = time.monotonic()
+                        while "read_end" not in st and time.monotonic() - t0 < 20 and not viol:
+                            await anyio.sleep(0.001)
+
+                        window("send_eof_while_own_receive_pending")
+
                     await r.send(pattern(1, pos, n))
                     pos += n
             except BaseException as e:  # noqa: BLE001
@@ -449,6 +461,14 @@ def all_cases(tier: str, seed: int):  # noqa: ANN201
                            "max_bytes": [4096, 100, 65536], "stall": stall, "reverse": [],
                            "eof": "send_eof", "probe_closed": False, "probe_busy": False,
                            "cancelled_receive": True}  # fmt: skip
+
+    # half-close while the closing side's other task is blocked in receive()
+    for cfg in ("asyncio", "uvloop"):
+        for kind in ("tcp", "unix"):
+            for reader in ("accepted", "connected"):
+                yield {"cfg": cfg, "kind": kind, "reader": reader, "sizes": [100, 70000],
+                       "max_bytes": [65536], "stall": "none", "reverse": [500, 1], "eof": "send_eof",
+                       "probe_closed": False, "probe_busy": False, "reverse_late": True}  # fmt: skip
 
     # bulk transfers over un-shrunk kernel buffers to a late reader: the loop hands over
     # large chunks, on uvloop several per wake-up; integrity / order / chunk sizes only
